@@ -499,6 +499,59 @@ func (env *specEnv) call(e *ast.CallExpr) Val {
 			return Val{T: "false"}
 		}
 		return Val{T: env.seqEq(arg(0), arg(1)), Sort: "Bool"}
+	case "sprintf":
+		// sprintf("format", args...): the engine's model of fmt.Sprintf for that constant format
+		if lit, ok := e.Args[0].(*ast.BasicLit); ok {
+			format, _ := strconv.Unquote(lit.Value)
+			var vals []Val
+			var tys []types.Type
+			okTypes := true
+			for i := 1; i < len(e.Args); i++ {
+				v := arg(i)
+				vals = append(vals, v)
+				if v.Ty == nil {
+					switch v.sortIn(sc) {
+					case "Int":
+						tys = append(tys, types.Typ[types.Uint64])
+					case "Str":
+						tys = append(tys, types.Typ[types.String])
+					default:
+						okTypes = false
+					}
+				} else {
+					tys = append(tys, v.Ty)
+				}
+			}
+			// the model the program's own Sprintf call with this format created: arguments are given flat
+			// (array arguments element by element)
+			var same []*sprintfFn
+			for k, m := range fv.eng.sprintfFns {
+				if strings.HasPrefix(k, format+"|") || k == format {
+					same = append(same, m)
+				}
+			}
+			if len(same) == 1 {
+				n := 0
+				for _, x := range same[0].expand {
+					if x > 0 {
+						n += x
+					} else {
+						n++
+					}
+				}
+				if n == len(vals) {
+					flat := &sprintfFn{name: same[0].name}
+					return Val{T: flat.apply(vals), Ty: types.Typ[types.String]}
+				}
+			}
+			if okTypes {
+				if m := fv.eng.sprintfModel(format, tys); m != nil {
+					return Val{T: m.apply(vals), Ty: types.Typ[types.String]}
+				}
+			}
+		}
+		env.fail("sprintf(): format outside the modelled subset")
+		return Val{T: fv.fresh("specerr", "Str"), Ty: types.Typ[types.String]}
 	case "string":
 		// string(b) for a byte slice, as in Go
 		x := arg(0)
